@@ -3,6 +3,7 @@
 import os, random, sys
 sys.path.insert(0, os.path.dirname(os.path.abspath(__file__)))
 import vlib, scen, lcheck
+import c12
 
 PID = "C08"
 HEX = lambda b: bytes(b).hex()
@@ -62,6 +63,12 @@ def family(seed, tier):
                 if where <= s.s["tip"]:
                     s.dup(where, e["id"])
         docs.append((s.s["name"], s.doc()))
+    # price records a miner / staker can write: OPR and SPR winners disagreeing by every margin around the tolerance band of each
+    # 2.0 era (a disagreement is content, it may not keep a block from being applied), records one short of a full set, either chain alone
+    for k in range(1 if tier == "quick" else 4):
+        b = c12.live(seed + 41, k, tier)
+        b.s["name"] = "c08-bands-%d" % k
+        docs.append((b.s["name"], b.doc()))
     return docs
 
 
